@@ -64,7 +64,7 @@ def patch_meta_text(text, ns, nc, fs):
 NP1_GAINS = [50, 125, 250, 500, 1000, 1500, 2000, 3000]
 
 
-def synth_meta(rng, kind, nch, nsync=1):
+def synth_meta(rng, kind, nch, nsync=1, sites=None, gains=None):
     """Small synthetic SpikeGLX meta text: permuted site map, non-uniform IMRO gains.
     kind in 3A, 3B2, 3B2geom, NP2.1, NP2.4, NPultra, lf, nidq.  Returns (text, fs, nc)."""
     L = []
@@ -87,13 +87,14 @@ def synth_meta(rng, kind, nch, nsync=1):
     ncol = 8 if base == "NPultra" else 2
     nrow = {"NPultra": 48, "NP2.4": 640, "NP2.1": 640}.get(base, 480)
     # distinct sites, random order on disk (interleaved shanks for NP2.4)
-    sites = set()
-    while len(sites) < nch:
-        sites.add((rng.randrange(nshank), rng.randrange(ncol), rng.randrange(min(nrow, 2 + nch))))
-    sites = list(sites)
-    rng.shuffle(sites)
-    if rng.random() < 0.25:      # the usual layout: already sorted on disk
-        sites.sort(key=lambda s: (s[0], s[2], s[1]))
+    if sites is None:
+        sites = set()
+        while len(sites) < nch:
+            sites.add((rng.randrange(nshank), rng.randrange(ncol), rng.randrange(min(nrow, 2 + nch))))
+        sites = list(sites)
+        rng.shuffle(sites)
+        if rng.random() < 0.25:      # the usual layout: already sorted on disk
+            sites.sort(key=lambda s: (s[0], s[2], s[1]))
     L += ["acqApLfSy=%d,%d,%d" % (nch, nch if base in ("3A", "3B2", "3B2geom") else 0, nsync),
           "imSampRate=%r" % fs, "nSavedChans=%d" % (nch + nsync),
           "snsApLfSy=%s" % ("0,%d,%d" % (nch, nsync) if lf else "%d,0,%d" % (nch, nsync)),
@@ -112,7 +113,8 @@ def synth_meta(rng, kind, nch, nsync=1):
             maxint = rng.choice([8192, 2048])
             L += ["imAiRangeMax=0.5", "imAiRangeMin=-0.5", "imMaxInt=%d" % maxint]
     if base in ("3A", "3B2", "3B2geom", "NPultra"):
-        gains = [(rng.choice(NP1_GAINS), rng.choice(NP1_GAINS)) for _ in range(nch)]
+        if gains is None:
+            gains = [(rng.choice(NP1_GAINS), rng.choice(NP1_GAINS)) for _ in range(nch)]
         imro = "".join("(%d 0 0 %d %d 1)" % (i, g[0], g[1]) for i, g in enumerate(gains))
         L.append("~imroTbl=(0,%d)%s" % (nch, imro))
         exp = [0.6 / 512 / g[1 if lf else 0] for g in gains] + [1.0] * nsync
@@ -365,10 +367,6 @@ def expected_order(geom_unsorted, nc, sort):
 
 def selector_class(rec, case):
     api, sels = case["api"], case["sels"]
-    if api == "getitem1" and sels[0][0] == "list":
-        return "single_list"
-    if api == "getitem1" and sels[0][0] == "int" and sels[0][2] == "np":
-        return "np_integer_item"
     if rec.cbin and sels and sels[0][0] == "int" and sels[0][2] == "np":
         return "np_integer_sample"
     if rec.cbin and sels and sels[0][0] == "slice" and sels[0][3] is not None and sels[0][3] < 0:
@@ -544,6 +542,38 @@ def build_recordings(ctx, tdir):
                     recs.append(dict(name="s%d_%s_%d_%d" % (rep, kind, nch, cbin), text=text, fs=fs, ns=ns, nc=nc,
                                      cbin=cbin, chunk=chunk, label="synthetic:%s:%d" % (kind, nch), big=False,
                                      exp_s2v=exp))
+    # structured layouts whose sort permutation is NOT an involution (so that a stored inverse
+    # permutation shows) and, where the probe type has per-channel gains, all-distinct gains (so
+    # that gains gathered with the wrong index show); in every tier
+    mixed = [(NP1_GAINS[i % 8], NP1_GAINS[(3 * i + 1) % 8]) for i in range(12)]
+    structured = [
+        # NP2.4: imro cycling through the 4 shanks, 3 rows each (a 4x3 transpose)
+        ("NP2.4", 12, [(i % 4, 0, i // 4) for i in range(12)], None),
+        # NP2.1: three 4-channel blocks written in the order 2,0,1 (a 3-cycle of blocks)
+        ("NP2.1", 12, [(0, i % 2, ((i // 4 + 2) % 3) * 2 + (i % 4) // 2) for i in range(12)], None),
+        # NPultra: two sites per row written in ascending column (sorting wants descending), rows
+        # rotated by 1 of 4 (reversal within rows composed with a rotation: order 4), mixed AP/LF gains
+        ("NPultra", 8, [(0, 3 * (i % 2) + 2, (i // 2 + 1) % 4) for i in range(8)], mixed[:8]),
+        # 3B2 / lf: rows rotated by 3, mixed gains
+        ("3B2", 12, [(0, 0, (i + 3) % 12) for i in range(12)], mixed),
+        ("lf", 12, [(0, 1, (i + 5) % 12) for i in range(12)], mixed),
+    ]
+    for kind, nch, sites, gains in structured:
+        text, fs, nc, exp = synth_meta(rng, kind, nch, nsync=1, sites=list(sites), gains=gains)
+        for cbin in (False, True):
+            ns = rng.choice([8, 13, 21])
+            recs.append(dict(name="t_%s_%d" % (kind, cbin), text=text, fs=fs, ns=ns, nc=nc, cbin=cbin,
+                             chunk=rng.choice([2, 3, 5]), label="structured:%s:%d" % (kind, nch), big=False,
+                             exp_s2v=exp, structured=True))
+    # long recordings: ns > 64 and more than 6 chunks
+    longs = [(97, 8), (300, 7)] if not ctx.thorough() else \
+        [(97, 8), (300, 7), (65, 1), (129, 10), (1000, 37), (2000, 33), (513, 64), (777, 100)]
+    for ns, chunk in longs:
+        kind = rng.choice(["3B2", "NP2.4", "NPultra", "nidq"])
+        text, fs, nc, exp = synth_meta(rng, kind, rng.choice([3, 5, 8]), nsync=1)
+        for cbin in (False, True):
+            recs.append(dict(name="l_%d_%d" % (ns, cbin), text=text, fs=fs, ns=ns, nc=nc, cbin=cbin, chunk=chunk,
+                             label="long:%s:%d" % (kind, ns), big=False, exp_s2v=exp))
     # the sweep recordings: tiny, every slice triple
     for cbin in (False, True):
         text, fs, nc, exp = synth_meta(rng, "NP2.4", 4)
@@ -556,6 +586,7 @@ def build_recordings(ctx, tdir):
         rec.big = r["big"]
         rec.sweep = r.get("sweep", False)
         rec.exp_s2v = r.get("exp_s2v")
+        rec.structured = r.get("structured", False)
         rec.text = r["text"]
         rec.fs = r["fs"]
         rec.chunk = r["chunk"]
@@ -627,16 +658,11 @@ def call_str(case):
 
 
 def model_eligible(rec, case):
-    """np.integer sample selectors on .cbin and a bare np.integer item take code paths
-    (mtscomp fallback, len() of a scalar) that the model does not describe; they go to the
-    oracle only."""
+    """np.integer sample selectors on .cbin take a code path (mtscomp's fallback) that the
+    model does not describe; they go to the oracle only (known finding F-C01-c)."""
     api, sels = case["api"], case["sels"]
-    if api == "getitem1" and sels[0][0] == "int" and sels[0][2] == "np":
-        return False
     if rec.cbin and sels and sels[0][0] == "int" and sels[0][2] == "np":
         return False
-    if rec.cbin and api == "getitem1" and sels[0][0] == "list" and sels[0][2] == "array" and len(sels[0][1]) == 2:
-        return False                      # item[0] is an np.int64 there
     if api == "getitemk" and any(s[0] == "int" and s[2] == "np" for s in sels):
         return False
     return True
@@ -667,6 +693,14 @@ def check_recording(ctx, rec, stats, work):
             exp_order = geometry_clauses(ctx, rec, sr, su, sort, describe(rec, sort, None))
             order = [int(x) for x in sr.raw_channel_order]
             s2v = np.asarray(sr.channel_conversion_sample2v[sr.type])
+            noninv = any(order[order[j]] != j for j in range(rec.nc))
+            nonuni = len(set(float(x) for x in s2v[:rec.nc - sr.nsync])) > 1
+            stats["readers_noninvolutive_order"] += noninv
+            stats["readers_noninvolutive_order_and_nonuniform_gains"] += noninv and nonuni
+            stats["max_ns"] = max(stats["max_ns"], rec.ns)
+            stats["max_chunks"] = max(stats["max_chunks"], len(rec.bounds) - 1)
+            if getattr(rec, "structured", False) and sort and not noninv:
+                ctx.disagree("harness: structured layout did not give a non-involutive order", describe(rec, sort, None))
             # the whole calibrated array in the order the property promises
             CS = rec.D.astype(np.float32)[:, exp_order]
             CS = (CS.astype(s2v.dtype) * s2v[exp_order]).astype(np.float32)
@@ -711,7 +745,9 @@ def run(ctx):
     logging.disable(logging.CRITICAL)
     common.proof_obligations(ctx, whitelist=[])
     stats = {"api": {}, "outcome": {}, "selector": {}, "file": {"bin": 0, "cbin": 0}, "sorted": 0, "unsorted": 0,
-             "oracle_evaluations": 0, "nontrivial": set(), "recordings": 0, "kinds": {}}
+             "oracle_evaluations": 0, "nontrivial": set(), "recordings": 0, "kinds": {},
+             "readers_noninvolutive_order": 0, "readers_noninvolutive_order_and_nonuniform_gains": 0,
+             "max_ns": 0, "max_chunks": 0}
     work = []
     tdir = common.tmpdir("C01_")
     try:
